@@ -24,6 +24,12 @@
  *       tonative null DESTLEN     -> fail | …             (addr == NULL, a real destination of DESTLEN bytes)
  *       tonative nulldest ADDR DESTLEN -> fail | ok-or-write   (dest == NULL)
  *       getnull                   -> size=0 fam=0 text=NULL port=0 flow=0 scope=0 any=0 loop=0 set=1   (every getter, both setters and free on NULL)
+ *       lengths up to 2^33 (the buffer is ONE anonymous MAP_NORESERVE mapping of 2^33 + 64 KiB bytes: address space only,
+ *       but every byte of the stated length is really there, so every length passed is honest; 64 <= LEN <= 2^33):
+ *       tonativebig ADDR LEN      -> ok HEX64 rest=clean|DIRTY | fail | PARTIAL-WRITE HEX64     (first 64 bytes pre-filled
+ *                                    with 0xA5 and printed; the rest of the first page and a sample of later pages must
+ *                                    still be zero: to_native writes exactly the structure)
+ *       fromnativebig HEX LEN     -> DUMP | none          (HEX, at most 64 bytes, at the start of the mapping, zeros behind)
  *       platform text functions against their Lean model (PV.Model.Inet6Text; the library is not called, a
  *       difference is a correspondence break of that model, not a finding about the library):
  *       ntop6 HEX32               -> t=HEX back=HEX32|-   (inet_ntop (AF_INET6) into 46 bytes; inet_pton (AF_INET6) of that text)
@@ -51,6 +57,7 @@
 #include <arpa/inet.h>
 #include <netdb.h>
 #include <unistd.h>
+#include <sys/mman.h>
 
 #define PAT 0xA5
 
@@ -125,6 +132,39 @@ static void platform_str (const char *s) {
 		freeaddrinfo (res);
 	} else
 		fprintf (out, "-");
+}
+
+/* ---- one large, honest buffer (ops tonativebig / fromnativebig) ---- */
+#define BIG_MAX ((unsigned long long) 1 << 33)
+#define BIG_MAP (BIG_MAX + 65536)
+static unsigned char *bigmap;
+
+static unsigned char *big (void) {
+	if (bigmap == NULL) {
+		void *p = mmap (NULL, BIG_MAP, PROT_READ | PROT_WRITE, MAP_PRIVATE | MAP_ANONYMOUS | MAP_NORESERVE, -1, 0);
+		if (p != MAP_FAILED) bigmap = p;
+	}
+	return bigmap;
+}
+
+/* bytes 64..4095 and 64-byte windows on later pages (around 2^31, 2^32, the end of the stated length, 2^33) are zero */
+static int big_rest_clean (unsigned long long len) {
+	static const unsigned long long at[] = { 4096, 65536, 1 << 20, (1ULL << 31) - 4096, (1ULL << 31) - 64, 1ULL << 31, (1ULL << 31) + 4096,
+		(1ULL << 32) - 4096, (1ULL << 32) - 64, 1ULL << 32, (1ULL << 32) + 4096, (1ULL << 33) - 64, 1ULL << 33, BIG_MAP - 64 };
+	size_t i, j;
+	for (j = 64; j < 4096; j++) if (bigmap[j]) return 0;
+	for (i = 0; i < sizeof at / sizeof at[0]; i++)
+		for (j = 0; j < 64; j++) if (bigmap[at[i] + j]) return 0;
+	if (len >= 128) for (j = 0; j < 64; j++) if (bigmap[len - 64 + j]) return 0;
+	for (j = 0; j < 64; j++) if (bigmap[len + j]) return 0;
+	return 1;
+}
+
+static int parse_big (const char *s, unsigned long long *out) {
+	char *e;
+	if (!*s || *s < '0' || *s > '9') return 0;
+	*out = strtoull (s, &e, 10);
+	return !*e && *out >= 64 && *out <= BIG_MAX;
 }
 
 /* the platform's text functions alone (ops ntop6 / ntop4 / pton) */
@@ -360,6 +400,32 @@ int main (int argc, char **argv) {
 		} else if (!strcmp (t[0], "sup") && n == 1) {
 			fprintf (out, "flow=%d scope=%d ipv6=%d\n", p_socket_address_is_flow_info_supported () ? 1 : 0,
 				p_socket_address_is_scope_id_supported () ? 1 : 0, p_socket_address_is_ipv6_supported () ? 1 : 0);
+		} else if (!strcmp (t[0], "tonativebig") && n >= 2 && (a = mk_addr (t + 1, n - 1, &used, &port), used) && n == used + 2) {
+			unsigned long long len; unsigned char ref[64];
+			if (a == NULL) fputs ("bad-addr\n", out);
+			else if (!parse_big (t[used + 1], &len)) { fputs ("bad-op\n", out); p_socket_address_free (a); }
+			else if (big () == NULL) { fputs ("no-map\n", out); p_socket_address_free (a); }
+			else {
+				int ok, clean;
+				memset (bigmap, PAT, 64); memset (ref, PAT, 64);
+				ok = p_socket_address_to_native (a, bigmap, (psize) len) ? 1 : 0;
+				clean = big_rest_clean (len);
+				if (ok) { fprintf (out, "ok "); hex (bigmap, 64); fprintf (out, clean ? " rest=clean\n" : " rest=DIRTY\n"); }
+				else if (memcmp (bigmap, ref, 64) == 0 && clean) fputs ("fail\n", out);
+				else { fprintf (out, "PARTIAL-WRITE "); hex (bigmap, 64); fprintf (out, "\n"); }
+				memset (bigmap, 0, 64);
+				p_socket_address_free (a);
+			}
+		} else if (!strcmp (t[0], "fromnativebig") && n == 3) {
+			long len; unsigned long long blen; unsigned char *b = unhex (t[1], &len);
+			if (len < 0 || len > 64 || !parse_big (t[2], &blen)) fputs ("bad-op\n", out);
+			else if (big () == NULL) fputs ("no-map\n", out);
+			else {
+				memcpy (bigmap, b, (size_t) len);
+				a = p_socket_address_new_from_native (bigmap, (psize) blen); dump (a); fprintf (out, "\n"); p_socket_address_free (a);
+				memset (bigmap, 0, 64);
+			}
+			free (b);
 		} else if ((!strcmp (t[0], "ntop6") || !strcmp (t[0], "ntop4")) && n == 2) {
 			long len; unsigned char *b = unhex (t[1], &len);
 			long want = t[0][4] == '6' ? 16 : 4;
